@@ -18,6 +18,10 @@ Protocol (see lean/Operon/Drv/C03.lean).  Axes driven on the real code:
     requests, registrations and removals (tokens `<base>~<variant>`, decoded here only);
   * several engines alive in one history (`eng`), each with its own ceiling, sharing callables and handing tool objects
     to one another (`share`); declared set / ceiling set mutated in place (`redecl … i`, `setal … i`);
+  * declarations computed on demand: `required_capabilities` / `capabilities` are PROPERTIES of the tool that build a
+    fresh iterable from a manifest at every access - a generator expression (style p), map() (q), iter(...) (r), a
+    dict keys view (v), an object that only has `__iter__` (y) - one-shot iterators included; ceilings as keys view /
+    bare iterable object;
   * search only: a call object with a scripted `name` property (`callx`), a tool body that requests a tool itself (`nest`).
 """
 from __future__ import annotations
@@ -116,7 +120,34 @@ def callee_tokens(field):
 
 NCORE = 6
 NCAPS = 10          # 6..9: foreign tags
-STYLES = "aabbcdegffk"
+STYLES = "aabbcdegffkpqrvy"
+# declarations computed on demand (a property that builds a fresh iterable per access):
+#   p generator expression, q map(), r iter(...) - one-shot iterators; v dict keys view; y object with __iter__ only
+LAZY = "pqrvy"
+LAZY_TRUTHY = "pqry"     # objects that are truthy although they yield nothing (no __len__ / __bool__)
+
+
+class BareIterable:
+    """an iterable that is nothing else: no __len__, no __contains__, a fresh iterator per __iter__"""
+
+    def __init__(self, items):
+        self._items = list(items)
+
+    def __iter__(self):
+        return (x for x in self._items)
+
+
+def lazy_decl(how, manifest):
+    """a FRESH declaration object built from the manifest (what a manifest-backed tool's property hands back)"""
+    if how == "p":
+        return (x for x in manifest)
+    if how == "q":
+        return map(lambda x: x, manifest)
+    if how == "r":
+        return iter(tuple(manifest))
+    if how == "v":
+        return dict.fromkeys(manifest).keys()
+    return BareIterable(manifest)
 
 
 class PluginCap(enum.Enum):          # a plug-in's own capability vocabulary
@@ -186,6 +217,9 @@ def _spelled(line):
 
 def _required(rec):
     req, caps = rec["req"], rec["caps"]
+    if rec.get("truthy") and req is not None:
+        # the tool HAS a required-capabilities declaration (an iterator object): what it yields is what it declares
+        return set(req)
     return set(req) if req else set(caps) if caps else set()
 
 
@@ -224,7 +258,8 @@ class _Run:
         return self.p.caps[i] if i < len(self.p.caps) else f"tag{i}"
 
     def conv(self, al, style):
-        c = {"set": set, "frozenset": frozenset, "list": list, "tuple": tuple}.get(style, set)
+        c = {"set": set, "frozenset": frozenset, "list": list, "tuple": tuple, "iterable": BareIterable,
+             "keys": lambda it: dict.fromkeys(it).keys()}.get(style, set)
         return None if al is None else c(self.tag(i) for i in al)
 
     def switch(self, i, al=None, style="set"):
@@ -326,6 +361,8 @@ class _Run:
         self.next_rid += 1
         rid = self.next_rid
         rec = {"rid": rid, "body": body, "req": req, "caps": caps, "raises": raises, "name": name}
+        if style in LAZY_TRUTHY:
+            rec["truthy"] = True
         f = self.fn(body, raises)
         run = self
         if style in "ck":
@@ -353,6 +390,36 @@ class _Run:
             class B:                     # bare Tool-protocol object: no parameters_schema attribute
                 description = "t"
                 execute = T.execute
+            if style in LAZY:
+                tag = self.tag
+
+                class M(T):              # manifest-backed tool: the declaration is computed at every access
+                    _vf_lazy = style
+
+                    @property
+                    def required_capabilities(self_):
+                        if self_._req is None:
+                            raise AttributeError("required_capabilities")
+                        return lazy_decl(style, [tag(i) for i in self_._req])
+
+                    @property
+                    def capabilities(self_):
+                        if self_._caps is None:
+                            raise AttributeError("capabilities")
+                        return lazy_decl(style, [tag(i) for i in self_._caps])
+                t = M()
+                t.name = pyname
+                t._req = None if req is None else list(req)
+                t._caps = None if caps is None else list(caps)
+                # the harness iterates a fresh access once: that is what the tool declares
+                for attr, want in (("required_capabilities", req), ("capabilities", caps)):
+                    d = getattr(t, attr, None)
+                    got = None if d is None else sorted(set(d), key=repr)
+                    assert got == (None if want is None else sorted({tag(i) for i in want}, key=repr)), (attr, got, want)
+                self.engine().engulf_tool(t)
+                self.regs[name] = rec
+                self.timeline.append(("reg", name, rec))
+                return
             t = B() if style == "b" else T()
             t.name = pyname
             conv = {"d": list, "e": tuple, "g": frozenset}.get(style, set)
@@ -374,8 +441,16 @@ class _Run:
         obj = self.engine().tools.get(decode(name))
         if obj is None or name not in self.regs:
             return []
+        lazy = getattr(type(obj), "_vf_lazy", None)
         for attr, val in (("required_capabilities", req), ("capabilities", caps)):
-            if val is None:
+            if lazy:                     # manifest-backed tool: the manifest changes, the property computes from it
+                key = "_req" if attr == "required_capabilities" else "_caps"
+                old = getattr(obj, key)
+                if inplace and old is not None and val is not None:
+                    old[:] = list(val)
+                else:
+                    setattr(obj, key, None if val is None else list(val))
+            elif val is None:
                 try:
                     delattr(obj, attr)
                 except AttributeError:
@@ -485,7 +560,7 @@ class C03(Prop):
     def generate(self, rng, tier, n):
         for _ in range(n):
             al = self._rand_caps(rng)
-            lines = [f"cfg {caps_str(al)} {rng.choice(['set', 'set', 'frozenset', 'list', 'tuple'])}"]
+            lines = [f"cfg {caps_str(al)} {rng.choice(['set', 'set', 'frozenset', 'list', 'tuple', 'keys', 'iterable'])}"]
             nbody = 0
             raising = {}
             armed = []
@@ -554,7 +629,7 @@ class C03(Prop):
                     lines.append(f"redecl {name} {caps_str(self._rand_caps(rng))} "
                                  f"{caps_str(self._rand_caps(rng) if rng.random() < 0.3 else None)} {rng.choice('ai')}")
                 elif r < 0.70:
-                    lines.append(f"setal {caps_str(self._rand_caps(rng))} {rng.choice(['set', 'frozenset', 'list', 'tuple'])}"
+                    lines.append(f"setal {caps_str(self._rand_caps(rng))} {rng.choice(['set', 'frozenset', 'list', 'tuple', 'keys', 'iterable'])}"
                                  + rng.choice(["", "", " i"]))
                 elif r < 0.83:
                     ss = slots()
@@ -793,6 +868,27 @@ class C03(Prop):
                     multi.append({"lines": [f"cfg {caps_str(bad)}", f"reg w 1 {caps_str(ok)} none 0 a", e1, "eng 1 -", "share w 0",
                                             e1, "eng 0", f"redecl w {caps_str(bad)} none i", e2, "eng 1", e2],
                                   "note": "exhaustive object shared by two engines re-declared in place through one of them"})
+        # declarations computed on demand: a property that builds a fresh iterable (one-shot iterators included) from a
+        # manifest at every access; requested twice (nothing may be remembered or used up), re-declared, requested again
+        lazy = []
+        for cst in ("set", "keys", "iterable"):
+            for al in ([], [0], [0, 1]):
+                for tstyle in LAZY:
+                    if cst != "set" and tstyle not in "pv":
+                        continue
+                    for req, cp in (([2], None), ([0, 2], None), ([0], None), (None, [2]), ([], [2]), ([2], [0]), (None, [0])):
+                        for e in entries:
+                            lazy.append({"lines": [f"cfg {caps_str(al)} {cst}",
+                                                   f"reg w 1 {caps_str(req)} {caps_str(cp)} 0 {tstyle}", e, e],
+                                         "note": "exhaustive declaration computed on demand (fresh iterator per access) x entry, requested twice"})
+                    if cst == "set":
+                        ok, bad = al[:1], al[:1] + [2]
+                        for e1 in entries:
+                            for e2 in entries[1:3]:
+                                lazy.append({"lines": [f"cfg {caps_str(al)}", f"reg w 1 {caps_str(ok)} none 0 {tstyle}", "schemas", e1,
+                                                       f"redecl w {caps_str(bad)} none", e2, e1, f"redecl w - {caps_str(bad)} i", e2,
+                                                       f"redecl w none {caps_str(bad)}", e2],
+                                             "note": "exhaustive manifest of a manifest-backed tool changed between requests"})
         spaces = [{"name": "container types (set/frozenset/list/tuple) of the ceiling and of the tool's declaration x entry points",
                  "cases": cont},
                 {"name": "re-registration histories: allowed/used/re-registered outside the ceiling x entry-point pairs",
@@ -814,11 +910,14 @@ class C03(Prop):
                  "cases": look},
                 {"name": "several engines alive (wide / narrow ceiling; same object handed over, same callable, same name) used "
                          "alternately; declared set / ceiling set mutated in place x entry-point pairs",
-                 "cases": multi}]
+                 "cases": multi},
+                {"name": "declarations computed on demand: properties that build a fresh generator / map / iter / keys view / bare "
+                         "iterable per access (one-shot iterators) x ceiling container x entry point, requested twice; manifest changed between requests",
+                 "cases": lazy}]
         if tier != "quick":
             return spaces
         # quick tier: one model-driver start costs ~2.5 s, so the spaces are run in three batches
-        groups = [[0, 1, 2, 7], [3, 4, 5, 9], [6, 8]]
+        groups = [[0, 1, 2, 7], [3, 4, 5, 9], [6, 8, 10]]
         return [{"name": " + ".join(spaces[i]["name"] for i in g), "cases": [c for i in g for c in spaces[i]["cases"]]}
                 for g in groups]
 
@@ -870,9 +969,11 @@ class C03(Prop):
                 R.unregister(t[1])
                 obs.append("ok")
             elif t[0] == "redecl":
-                also = R.redeclare(t[1], parse_caps(t[2]), parse_caps(t[3]), inplace=len(t) > 4 and t[4] == "i")
-                # recorded for the model (tools are values there): who else holds the object that was re-declared
-                t = t[:4] + [t[4] if len(t) > 4 and t[4] in ("a", "i") else "a"]
+                also = R.redeclare(t[1], parse_caps(t[2]), parse_caps(t[3]), inplace=len(t) > 4 and t[4][:1] == "i")
+                # recorded for the model (tools are values there): who else holds the object that was re-declared, and
+                # whether its declaration objects are truthy when they yield nothing (mode suffix t: iterators)
+                t = t[:4] + [(t[4][:1] if len(t) > 4 and t[4][:1] in ("a", "i") else "a")
+                             + ("t" if R.regs.get(t[1], {}).get("truthy") else "")]
                 if also:
                     t.append("also:" + ",".join(f"{j}:{n_}" for j, n_ in also))
                 case["lines"][li] = " ".join(t)
